@@ -172,14 +172,14 @@ def r4(chk):
     chk.rule("R4", "quick return is tested first and replaces the whole body; `*other = expr;` for into_existing; both block flavours agree", floor=12)
 
     def mk():
-        return Evaluator(repo, IMPL_FILES, shallow=True)
+        # helpers of the body builders are evaluated in place; only the renderers below them are summarised
+        return Evaluator(repo, IMPL_FILES, opaque={"quote_action", "struct_main_code_block", "enum_main_code_block"})
     tables = {}
     for name in ("main_code_block", "main_code_block_ok"):
         fi = repo.fn(EXPAND, name)
-        first = fi.body["stmts"][0]
-        is_first = first["k"] == "ExprStmt" and first["expr"]["k"] == "If" and "quick_return" in render(first["expr"]["cond"])
-        chk.expect("R4", f"{name}/first", is_first, EXPAND, fi.line, "quick return is not the first test of the body builder")
         lv = explore(mk, lambda ev: ev.run_fn(fi, ev.sym_params(fi)))
+        if any(lf.unsupported for lf in lv):
+            raise Inconclusive(f"{name} not evaluable: " + str([lf.unsupported for lf in lv if lf.unsupported][:1]))
         t = {}
         for lf in lv:
             if lf.get("ctx.struct_attr.quick_return") == "Some":
